@@ -83,7 +83,7 @@ def meter_days(case):
         n = 60
         anchor = 0
     else:
-        first, n = d0, N_DAYS
+        first, n = d0, case.get("n_days", N_DAYS)
         anchor = 360 if case["meter"] == "daily06" else 0
     days = [iv.day_bounds(iv.add_days(first, k), zone, anchor) for k in range(n)]
     return days, anchor, first, d0
@@ -319,6 +319,19 @@ def cases(tier):
                     for gaps in [[k] for k in range(1, N_DAYS - 1)]:
                         out.append({"family": "daily", "cls": "baseline", "entry": entry, "feed": 60, "feed_zone": "same", "meter": meter,
                                     "zone": z, "window": w, "dst_pos": N_DAYS // 2, "runs": [], "meter_gaps": gaps})
+    # ---- one-day and two-day data objects (single-day reporting, day-by-day scoring): the day keeps its own stamp and the mean of its own
+    # readings, through every entry point, with and without a meter, also when that day is the day of the clock change
+    for z in meter_zones:
+        for n_days in (1, 2):
+            for pos in (0, 2):
+                for feed in (60, 30):
+                    for cls in ("baseline", "reporting"):
+                        for meter, entry in (("daily00", "from_series"), ("daily00", "frame"), ("hourly", "from_series"), ("none", "from_series"), ("none", "frame")):
+                            if meter == "none" and cls == "baseline":
+                                continue
+                            for runs in ([], [[0, 6 * 60 // feed]], [[0, 13 * 60 // feed]]):
+                                out.append({"family": "daily", "cls": cls, "entry": entry, "feed": feed, "feed_zone": "same", "meter": meter,
+                                            "zone": z, "window": "spring", "dst_pos": pos, "runs": runs, "n_days": n_days})
     # ---- an hourly meter that is down for half a day or more (hourly feed): runs of 11/12/13/24/30 readings at every 6th hour of the
     # interior days, as NaN and as zero; every day keeps its row and the mean of its OWN temperature readings
     for z in meter_zones:
